@@ -471,6 +471,13 @@ func (c04) Plan(tier string, seed int64) []core.Scenario {
 	if tier == "thorough" {
 		cuts = 200
 	}
+	for i := 0; i < 2*n; i++ {
+		// concurrent calls with large, token-derived arguments: one execution per call, its own result
+		out = append(out, core.Scenario{Kind: "bigmix", Seed: seed*37 + int64(i), N: map[string]int{"workers": 4 + 4*(i%2), "same": 1, "noise": i % 3}, S: map[string]string{"transport": "ws"}})
+		// calls whose context is cancelled before or just after they are issued, with arguments that take a
+		// while to decode: whatever the server answers, it must have executed the handler for it
+		out = append(out, core.Scenario{Kind: "cancelled-big", Seed: seed*41 + int64(i), N: map[string]int{"mb": 2 + i%2, "noise": i % 3}, S: map[string]string{}})
+	}
 	for i := 0; i < cuts; i++ {
 		out = append(out, core.Scenario{Kind: "httpcut", Seed: seed*31 + int64(i), N: map[string]int{"dir": i % 2, "after": 1 + (i/2)*13%400, "fk": i % 3}, S: map[string]string{}})
 	}
@@ -489,6 +496,10 @@ func (c04) Run(sc core.Scenario) core.Result {
 		runPlain04(sc, r4)
 	case "httpcut":
 		runHTTPCut04(sc, r4)
+	case "bigmix":
+		c02{}.bigMix(sc, r4)
+	case "cancelled-big":
+		runCancelledBig04(sc, r4)
 	default:
 		runFault(sc, r3, r4)
 	}
@@ -715,4 +726,87 @@ func runHTTPCut04(sc core.Scenario, r *core.R) {
 	r.Obs("http_calls_failed_by_cut", int64(affected))
 	r.Obs("handler_entries", env.Svc.Total())
 	r.Sample(map[string]interface{}{"transport": "http", "cut": kind, "after_bytes": sc.I("after"), "dir": sc.I("dir"), "failed_calls": affected})
+}
+
+// runCancelledBig04: exactly-once-on-answer for calls that are cancelled around the moment they are issued.
+// The oracle works on the wire: if the proxy saw a response frame for the request that carried the call's
+// token, the handler for that token ran exactly once; no response frame, then at most once.
+func runCancelledBig04(sc core.Scenario, r *core.R) {
+	env := NewEnv(EnvOpt{})
+	defer env.Shutdown()
+	env.Px.KeepFrames, env.Px.MaxKeep = true, 4000
+	pol := noisePolicy(sc)
+	defer pol.Install()()
+	cl, err := env.NewClient(ClientOpt{})
+	if err != nil {
+		r.Inconclusive("client: %v", err)
+		return
+	}
+	bg := context.Background()
+	pad := strings.Repeat("c", sc.I("mb")<<20)
+	type call struct {
+		tok     string
+		variant int
+		o       *Outcome
+	}
+	var calls []call
+	for i := 0; i < 8; i++ {
+		t := Tok("c")
+		ctx, cancel := context.WithCancel(bg)
+		v := i % 4
+		switch v {
+		case 0:
+			cancel()
+		case 1:
+			go cancel()
+		case 2:
+			go func() { time.Sleep(200 * time.Microsecond); cancel() }()
+		case 3:
+			go func() { time.Sleep(3 * time.Millisecond); cancel() }()
+		}
+		o := Go(t, func() (string, error) { return cl.Mirror(ctx, t, pad) })
+		if !o.Wait(2 * core.Grace) {
+			r.Violate("lost-call:cancelled-big", "a call cancelled around its start (variant %d) with a %d MiB argument never returned", v, sc.I("mb"))
+			cancel()
+			break
+		}
+		cancel()
+		calls = append(calls, call{t, v, o})
+	}
+	probeUntilHealthy(cl, r, core.Grace) // everything the server sent before the probe's answer has passed the proxy
+	frames := env.Px.Frames()
+	answeredN := 0
+	for _, c := range calls {
+		id, conn := "", 0
+		for _, f := range frames {
+			if f.Dir == wsproxy.C2S && f.Msg != nil && f.Msg.Token == c.tok && f.Msg.Method == "S.Mirror" {
+				id, conn = f.Msg.ID, f.ConnN
+			}
+		}
+		answered := ""
+		if id != "" {
+			for _, f := range frames {
+				if f.Dir == wsproxy.S2C && f.ConnN == conn && f.Msg != nil && f.Msg.Method == "" && f.Msg.ID == id {
+					answered = fmt.Sprintf("result=%v error=%v %s", f.Msg.HasResult, f.Msg.HasError, core.Trunc(f.Msg.Result, 40))
+				}
+			}
+		}
+		n := env.Svc.Enters(c.tok)
+		r.Obs("cancelled_calls", 1)
+		if answered != "" {
+			answeredN++
+			if n != 1 {
+				r.Violate("answered-not-executed", "call %s (cancel variant %d, request id %s) was answered by the server (%s; caller saw (%q, %v)) but its handler ran %d times", c.tok, c.variant, id, answered, core.Trunc(c.o.Val, 30), c.o.Err, n)
+			}
+		} else if n > 1 {
+			r.Violate("executed-twice", "call %s ran %d times", c.tok, n)
+		}
+		if c.o.Err == nil && c.o.Val != svc.MirrorOf(c.tok, pad) {
+			r.Violate("foreign-result", "call %s returned a value that is not the mirror of its argument (len %d)", c.tok, len(c.o.Val))
+		}
+	}
+	r.Key(fmt.Sprintf("cancelled-big mb=%d", sc.I("mb")), answeredN > 0)
+	r.Obs("cancelled_calls_answered", int64(answeredN))
+	r.Sig(core.Log.Signature())
+	r.Sample(map[string]interface{}{"scenario": "calls cancelled around their start, multi-MiB arguments", "calls": len(calls), "answered_on_the_wire": answeredN})
 }
